@@ -229,6 +229,11 @@ class Specialiser:
             elif isinstance(n, jn.Assign):
                 if isinstance(n.target, jn.Name):
                     env[n.target.name] = "<assigned:" + jtext(n.node) + ">"
+            elif isinstance(n, jn.Macro):
+                # {% macro name(params) %}...{% endmacro %}: expanded where it is called
+                if not hasattr(self, "macros"):
+                    self.macros = {}
+                self.macros[n.name] = n
             else:
                 raise AnalysisError(f"template statement {type(n).__name__} not supported by the specialiser (line {n.lineno})")
 
@@ -306,6 +311,23 @@ class Specialiser:
             return str(e.value)
         if isinstance(e, jn.Name):
             return env.get(e.name, e.name)
+        if isinstance(e, jn.Call) and isinstance(e.node, jn.Name) and e.node.name in getattr(self, "macros", {}):
+            m = self.macros[e.node.name]
+            params = [a.name for a in m.args]
+            if len(e.args) > len(params) or e.dyn_args or e.dyn_kwargs:
+                raise AnalysisError(f"macro call `{jtext(e)}` not supported by the specialiser")
+            env2 = dict(env)
+            for p_, a in zip(params, e.args):
+                env2[p_] = self._value(a, env, loop)
+            for kw in e.kwargs:
+                env2[kw.key] = self._value(kw.value, env, loop)
+            missing = [p_ for p_ in params[len(e.args):] if p_ not in {kw.key for kw in e.kwargs}]
+            for p_, d in zip(params[len(params) - len(m.defaults):], m.defaults):
+                if p_ in missing:
+                    env2[p_] = self._value(d, env, loop)
+            out2: List[str] = []
+            self._nodes(m.body, env2, out2, loop)
+            return "".join(out2)
         if isinstance(e, jn.Call):
             f = e.node
             ftxt = jtext(f)
